@@ -784,6 +784,30 @@ func (s *Server) handleRequest(req *dhcpv4.DHCPv4) (*dhcpv4.DHCPv4, error) {
 		}
 	}
 
+	// A RELEASE, DECLINE or expiry of this binding may have run between the
+	// lease-table update above and the fast path updates. It removed the lease
+	// and its fast path entries; the entries written since would keep answering
+	// for a binding that no longer exists, so take them out again and refuse.
+	s.leasesMu.RLock()
+	stillHeld := s.leases[mac.String()] == lease
+	s.leasesMu.RUnlock()
+	if !stillHeld {
+		if s.loader != nil {
+			s.loader.RemoveSubscriber(ebpf.MACToUint64(mac))
+			if (lease.STag > 0 || lease.CTag > 0) && s.loader.HasVLANSupport() {
+				s.loader.RemoveVLANSubscriber(lease.STag, lease.CTag)
+			}
+			if len(lease.CircuitID) > 0 {
+				s.loader.RemoveCircuitIDMapping(lease.CircuitID)
+				if s.loader.HasCircuitIDSubscriberSupport() {
+					s.loader.RemoveCircuitIDSubscriber(lease.CircuitID)
+				}
+			}
+		}
+		atomic.AddUint64(&s.naksTotal, 1)
+		return s.buildNAK(req, "lease no longer exists")
+	}
+
 	// Apply QoS policy for new sessions
 	if isNewSession && s.qosMgr != nil {
 		policyName := lease.PolicyName
